@@ -112,6 +112,10 @@ TYPES = {
 }
 STUBS = {
     'std::string::empty': 'vs_str_empty', 'std::string::size': 'vs_str_size', 'std::string::at': 'vs_str_at',
+    # operator[] / length / length-style spellings of the same accesses (index inside the object is then an obligation, not an exception)
+    'operator[]|std::string': {'expr': '(*vs_str_index(&($0), $1))'}, 'operator[]|std::vector<std::byte>': {'expr': '(*vs_bytes_index(&($0), $1))'},
+    'std::string::length': 'vs_str_size', 'std::vector<std::byte>::empty': {'expr': '((($this))->size == 0)'},
+    'operator^|std::byte,std::byte': {'expr': '((unsigned char)(($0) ^ ($1)))'}, 'operator==|std::byte,std::byte': {'expr': '(($0) == ($1))'}, 'operator!=|std::byte,std::byte': {'expr': '(($0) != ($1))'},
     'std::string::begin': {'expr': '((size_t)0)'}, 'std::string::shrink_to_fit': 'vs_str_shrink_to_fit',
     'std::vector<std::byte>::size': 'vs_bytes_size', 'std::vector<std::byte>::at': 'vs_bytes_at',
     'std::vector<std::byte>::shrink_to_fit': 'vs_bytes_shrink_to_fit',
